@@ -94,11 +94,16 @@ fn judge_htyp(htyp: u8, mode: usize, fill: usize, loc: &mut Local) {
     }
 }
 
-fn judge_msin(msin: u8, loc: &mut Local) {
+/// contents of the extended header's other fields: (NOAR for a verbose message, APID, CTID)
+const MSIN_FILLS: [([u8; 4], [u8; 4]); 5] = [(*b"APP\0", *b"CTX\0"), ([0; 4], [0; 4]), (*b"APPL", *b"CTXT"), ([0xFF; 4], [0xC3, 0x28, 0, 0]), (*b"DLT\x01", *b"DLS\x01")];
+
+fn judge_msin(msin: u8, fill: usize, loc: &mut Local) {
     loc.evals += 1;
     loc.traces += 1;
-    loc.state(0x100 | msin as u64, true);
-    let details = || json!({"msin": msin});
+    loc.state(0x100 | msin as u64 | (fill as u64) << 12, true);
+    let details = || json!({"msin": msin, "fill": fill});
+    let (f_app, f_ctx) = MSIN_FILLS[fill];
+    let (app_text, ctx_text) = (clean_field(&f_app), clean_field(&f_ctx));
     let (mstp, mtin) = ((msin >> 1) & 7, msin >> 4);
     let expect = message_type_of(mstp, mtin);
     loc.transitions += 2;
@@ -117,7 +122,9 @@ fn judge_msin(msin: u8, loc: &mut Local) {
     }
     // through an extended header of a real message (verbose bit included)
     let verbose = msin & 1 != 0;
-    let mut b = vec![0x21, 0, 0, 0, msin, 0, b'A', b'P', b'P', 0, b'C', b'T', b'X', 0];
+    let mut b = vec![0x21, 0, 0, 0, msin, 0];
+    b.extend_from_slice(&f_app);
+    b.extend_from_slice(&f_ctx);
     if !verbose {
         b.extend_from_slice(&[9, 0, 0, 0]);
     }
@@ -127,12 +134,19 @@ fn judge_msin(msin: u8, loc: &mut Local) {
     match catch(|| dlt_message(&b, None, false).map(|(rest, pm)| (rest.len(), pm))) {
         Ok(Ok((0, ParsedMessage::Item(m)))) => {
             let e = m.extended_header.as_ref().expect("ext");
-            if e.message_type != expect || e.verbose != verbose {
-                loc.violation("MSIN in a message decodes wrongly", format!("MSIN {:#04x} in a message decoded to {:?} verbose={}, expected {:?} verbose={}", msin, e.message_type, e.verbose, expect, verbose), details());
+            if e.message_type != expect || e.verbose != verbose || e.application_id != app_text || e.context_id != ctx_text || e.argument_count != 0 {
+                loc.violation("MSIN in a message decodes wrongly", format!("MSIN {:#04x} in a message decoded to {:?} verbose={} noar={} app={:?} ctx={:?}, expected {:?} verbose={} noar=0 app={:?} ctx={:?}", msin, e.message_type, e.verbose, e.argument_count, e.application_id, e.context_id, expect, verbose, app_text, ctx_text), details());
                 return;
             }
+            // ids that are not in canonical form (text, NUL padding) are re-written canonically
+            let mut canon = b.clone();
+            for (at, t) in [(6usize, &app_text), (10usize, &ctx_text)] {
+                let mut c = [0u8; 4];
+                c[..t.len()].copy_from_slice(t.as_bytes());
+                canon[at..at + 4].copy_from_slice(&c);
+            }
             match catch(|| (e.as_bytes(), m.as_bytes())) {
-                Ok((eb, ser)) if eb[0] == msin && ser == b => {
+                Ok((eb, ser)) if eb[0] == msin && ser == canon => {
                     loc.outcome("msin message round trip");
                     loc.sample(|| json!({"msin": msin, "decoded": format!("{:?} verbose={}", e.message_type, e.verbose)}));
                 }
@@ -221,7 +235,7 @@ pub fn run(ctx: &Ctx) {
     ctx.enable_trace_pass(ctx.tier.pick(20000u64, 200000u64));
     ctx.set_rule("case = one code value; HTYP and MSIN: all 256 bytes each, through the conversion functions and through a real message; type info: every word of the stated domain, compared with an independent decoder of the bit layout (exactly one of BOOL/SINT/UINT/FLOA/STRG/RAWD among bits 4..10, supported TYLE) and re-encoded in both byte orders; non-trivial = the word is accepted");
     ctx.run_family(Family::new("c14.htyp", 256 * 4 * HTYP_FILLS.len() as u64, "all 256 HTYP bytes, each in a message with exactly the header fields it announces x {plain, behind a storage header, behind a storage header and parsed with an ECU-id filter that admits it, no storage header with that filter} x 6 contents of the optional fields {ECU1/ordinary numbers, all zero (empty ECU id), all 0xFF (not UTF-8), short id + extreme numbers, id starting with NUL + numbers spelling the storage / serial patterns, 2-byte character id}", |i, loc| judge_htyp(i as u8, ((i >> 8) & 3) as usize, (i >> 10) as usize, loc)));
-    ctx.run_family(Family::new("c14.msin", 256, "all 256 MSIN bytes through MessageType::try_from / u8::from and through the extended header of a message", |i, loc| judge_msin(i as u8, loc)));
+    ctx.run_family(Family::new("c14.msin", 256 * MSIN_FILLS.len() as u64, "all 256 MSIN bytes through MessageType::try_from / u8::from and through the extended header of a message x 5 contents of the application / context id fields {3 letters, empty, 4 letters, not UTF-8, spelling the storage / serial patterns}", |i, loc| judge_msin(i as u8, (i >> 8) as usize, loc)));
     // history: decoding a word must not depend on the words decoded before (memo tables, negative
     // caches): for ALL ordered pairs (x, y) of patterns of bits 0..12, decode x, then judge y twice
     {
